@@ -126,6 +126,14 @@ func watchdogFor(entry string) int {
 type verdict struct {
 	sig string // "" = fine
 	msg string
+	// obs: the failure arose inside a decompressor (lengths inside compressed
+	// record payloads: covered by the batch / message checksum, outside the
+	// statement): recorded as an observation, never a failure
+	obs bool
+}
+
+func compressedKind(kind string) bool {
+	return strings.HasPrefix(kind, "xerial") || strings.HasPrefix(kind, "snappy") || strings.HasPrefix(kind, "codec_header")
 }
 
 // judge applies the statement to one answer.  stream is what was supplied.
@@ -134,16 +142,18 @@ func judge(c *mutCase, stream []byte, r wres) verdict {
 	if kind == "" {
 		kind = "none"
 	}
+	decomp := r.Decomp != 0
 	switch r.Outcome {
 	case "decoded", "error", "unserved":
 	case "panic":
-		return verdict{fmt.Sprintf("c20/panic/%s/%s", c.API, kind), "decoding panicked: " + r.Msg}
+		// a panic outside the decompressors is a failure even when one ran
+		return verdict{fmt.Sprintf("c20/panic/%s/%s", c.API, kind), "decoding panicked: " + r.Msg, inDecompressor(r.Msg)}
 	case "timeout":
-		return verdict{fmt.Sprintf("c20/timeout/%s/%s", c.API, kind), "decoding did not return: " + r.Msg}
+		return verdict{fmt.Sprintf("c20/timeout/%s/%s", c.API, kind), "decoding did not return: " + r.Msg, decomp}
 	case "death":
-		return verdict{fmt.Sprintf("c20/death-%s/%s/%s", deathClass(r), c.API, kind), "the worker process died while decoding (" + r.Msg + "):\n" + r.Stderr}
+		return verdict{fmt.Sprintf("c20/death-%s/%s/%s", deathClass(r), c.API, kind), "the worker process died while decoding (" + r.Msg + "):\n" + r.Stderr, r.InDecomp}
 	default:
-		return verdict{"c20/harness/outcome", "unknown outcome " + r.Outcome + ": " + r.Msg}
+		return verdict{"c20/harness/outcome", "unknown outcome " + r.Outcome + ": " + r.Msg, false}
 	}
 	if c.Field < 0 && c.Class == "unmutated" {
 		// well-formed frames: allocation and extent are validated by the caller as
@@ -152,13 +162,13 @@ func judge(c *mutCase, stream []byte, r wres) verdict {
 	}
 	if b := allocBound(len(stream)); r.Alloc > b {
 		return verdict{fmt.Sprintf("c20/alloc/%s/%s/%s", c.API, kind, c.Class),
-			fmt.Sprintf("decoding %d supplied bytes allocated %d bytes (bound 1 MiB + 1024 x %d = %d); outcome %s %s", len(stream), r.Alloc, len(stream), b, r.Outcome, r.Msg)}
+			fmt.Sprintf("decoding %d supplied bytes allocated %d bytes (bound 1 MiB + 1024 x %d = %d); outcome %s %s", len(stream), r.Alloc, len(stream), b, r.Outcome, r.Msg), decomp}
 	}
 	// a decoder handed a frame of announced size s must not read past byte 4+s
 	if c.Entry == "read" && len(stream) >= 4 {
 		if s := int32(binary.BigEndian.Uint32(stream)); s >= 0 && r.Consumed > 4+int(s) {
 			return verdict{fmt.Sprintf("c20/overrun/%s/%s", c.API, kind),
-				fmt.Sprintf("the frame announces %d bytes but the decoder consumed %d bytes of the stream (%d beyond the frame: bytes of the next response); outcome %s %s", s, r.Consumed, r.Consumed-4-int(s), r.Outcome, r.Msg)}
+				fmt.Sprintf("the frame announces %d bytes but the decoder consumed %d bytes of the stream (%d beyond the frame: bytes of the next response); outcome %s %s", s, r.Consumed, r.Consumed-4-int(s), r.Outcome, r.Msg), false}
 		}
 	}
 	return verdict{}
@@ -208,10 +218,17 @@ func evaluate(tb ev.TB, c *mutCase, stream []byte, r wres) bool {
 			v = judge(c, stream, r2)
 		}
 	}
+	if v.obs {
+		// inside a decompressor: lengths of the compressed payload, outside the statement
+		what := strings.SplitN(v.sig, "/", 3)[1]
+		ev.Count("obs_decompressor_"+what, 1)
+		ev.SampleTagged("obs_decompressor_"+what, 1, map[string]any{"case": withStream(*c, stream), "codec": codecNames[r.Decomp], "alloc": r.Alloc, "what": firstLines(v.msg, 12)})
+		return true
+	}
 	if c.Obs {
 		// checksummed content: outside the statement, kept as an observation
 		ev.Count("obs_checksummed_"+strings.SplitN(v.sig, "/", 3)[1], 1)
-		ev.SampleTagged("obs_checksummed", 2, map[string]any{"case": withStream(*c, stream), "what": v.msg})
+		ev.SampleTagged("obs_checksummed", 2, map[string]any{"case": withStream(*c, stream), "what": firstLines(v.msg, 12)})
 		return true
 	}
 	if strings.HasPrefix(v.sig, "c20/harness/") {
@@ -220,6 +237,14 @@ func evaluate(tb ev.TB, c *mutCase, stream []byte, r wres) bool {
 	ev.Fail(tb, "mut", v.sig, withStream(*c, stream), "%s v%d %s field %s (%s at offset %d, true value %d) := %s (raw %d) [splice=%s supply=%s, %d bytes supplied]: %s\nstream=%s",
 		c.API, c.Version, c.Entry, c.Path, c.Kind, c.Off, c.True, c.Class, c.Raw, c.Splice, c.Supply, len(stream), v.msg, hexHead(stream, 400))
 	return false
+}
+
+func firstLines(s string, n int) string {
+	l := strings.SplitN(s, "\n", n+1)
+	if len(l) > n {
+		l = l[:n]
+	}
+	return strings.Join(l, "\n")
 }
 
 func hexHead(b []byte, n int) string {
